@@ -202,6 +202,22 @@ pub fn check_vector(v: &Value) -> Result<Vec<Finding>, String> {
             (other, _) => out.push(Finding { stage: "layout-decode", field: "decode".into(), detail: format!("the specification's frame does not decode: {:?}", other) }),
         }
     }
+    if outcome == "any" && !spec_bytes.is_empty() {
+        // a frame that is legal by its size but beyond a protocol maximum: the decoder may refuse it, but if it returns a
+        // packet, that packet was "obtained by decoding" and must re-encode - to the same frame - without aborting (C03)
+        if let (Verdict::Pkt { consumed, .. }, Some(p3)) = standalone(mode, &spec_bytes) {
+            if consumed != spec_bytes.len() {
+                out.push(Finding { stage: "malformed-frame", field: "consumed".into(), detail: format!("decoding a {}-byte frame consumed {consumed}", spec_bytes.len()) });
+            }
+            match try_encode(mode, &p3) {
+                Ok(b3) if b3 == spec_bytes => {},
+                Ok(b3) => out.push(Finding { stage: "reencode-fails", field: first_byte_diff(&spec_bytes, &b3), detail: format!("a decoded {}-byte frame re-encodes to {} different bytes", spec_bytes.len(), b3.len()) }),
+                // an error is a loud refusal (IS_MAL / IS_IPB refuse more than 120 entries although the decoder reads them); an abort is not
+                Err(e) if e.starts_with("err") => {},
+                Err(e) => out.push(Finding { stage: "reencode-fails", field: e.clone(), detail: format!("re-encoding the packet decoded from a legal {}-byte frame: {e}", spec_bytes.len()) }),
+            }
+        }
+    }
     Ok(out)
 }
 
